@@ -5,3 +5,5 @@ pub mod tree;
 mod node;
 mod pool;
 mod entity;
+#[cfg(feature = "verif-hooks")]
+mod verif;
